@@ -332,6 +332,12 @@ class FnIndex:
         s = strip_generics(c)
         if s in self.by_norm:
             return self.by_norm[s]
+        parts0 = s.split('::')
+        if len(parts0) == 2 and parts0[0][:1].isupper():
+            # `Type::method` of a crate-private helper type named without its module path: unique across the crate?
+            hits = [f for (fl, ty, meth), cands in self.methods.items() if ty == parts0[0] and meth == parts0[1] for (f, t, sh) in cands if t is None]
+            if len(hits) == 1:
+                return hits[0]
         if s.startswith(FLAVOURS):
             parts = s.split('::')
             if len(parts) >= 3:
